@@ -217,11 +217,16 @@ def case_cli(run, i):
     if skip_low:
         argv.append("--drop-low-coverage")
     run._tls.last_seg = None
-    try:
-        args = commands.parse_args(argv)
-        args.func(args)
-    except Exception as exc:
-        run.extra[f"cli-raised:{type(exc).__name__}"] += 1
+    import cnvlib.segmentation as S
+    from ..monitors import cli_plumb
+    thr = [None, 1e-3, 1e-6][i % 3] if method == "haar" else None
+    if thr is not None:
+        argv += ["-t", repr(thr)]
+    r = cli_plumb.check_cli(run, rt, S, "do_segmentation", argv,
+                            dict(method=method, skip_low=skip_low, skip_outliers=float(outl), processes=procs, threshold=thr, variants=None, save_dataframe=False),
+                            "segment", truthy=("variants",))
+    if r is not None:
+        cli_plumb.held(run, "segment", f"cli-segment:{method}")
     seen = getattr(run._tls, "last_seg", None)
     mon = "cli.segment[file]"
     if seen is not None and ("probes" not in seen or not seen["n"]):
@@ -256,7 +261,7 @@ _Q = {
     "extra:calls-with-arm-split": 20,
     "extra:calls-completing-out-of-submission-order": 5,
     "extra:calls-spread-over-several-worker-processes": 20,
-    "cli.segment[file]|held": 8,
+    "cli.segment[file]|held": 8, "cli.segment[plumbing]|held": 10,
 }
 QUOTAS = {"quick": _Q, "thorough": dict(_Q, **{"segmentation._do_segmentation[arm]|held": 5000, "cli.segment[file]|held": 60})}
 
